@@ -224,7 +224,7 @@ fn small_typed<V: Val>(t: &mut Tracer, rng: &mut Rng, cx: &Ctx, var: Var, kind: 
     let hays: Vec<Rc<Vec<u8>>> = (0..nh)
         .map(|_| Rc::new(gen_haystack(rng, var, &alpha, 14, &spec.pats)))
         .collect();
-    let extra: Vec<u32> = alpha.extra.iter().copied().take(3).collect();
+    let extra: Vec<u32> = alpha.extra.iter().copied().take(5).collect();
     if cx.prop == "C08" && var == Var::C {
         let twin = BuildSpec {
             var: Var::B,
